@@ -129,6 +129,9 @@ func ruleCommitLast(c *Ctx, rule, short, name string) {
 				if !types.Identical(last.Type(), types.Universe.Lookup("error").Type()) || isNilConst(last) {
 					continue
 				}
+				if knownNilAt(b, last) {
+					continue // the store sits on the branch where this very error value was found nil
+				}
 				after := false
 				if rb == b {
 					after = true // the return terminates the store's own block
@@ -258,50 +261,135 @@ func ruleOrientWalk(c *Ctx, rule string, names ...string) {
 		}
 		return false
 	}
-	for _, name := range names {
-		fn := c.fn("feat", name)
+	// a predicate of the package that hands back an Orienter together with "it is oriented"
+	// (o, ok := oriented(f)): ok is true only after o.Orientation() != NotOriented
+	okMeansOriented := func(h *ssa.Function) bool {
+		if h == nil || h.Blocks == nil || h.Signature.Results().Len() != 2 {
+			return false
+		}
 		n := 0
-		for _, b := range fn.Blocks {
-			for _, ins := range b.Instrs {
-				bo, ok := ins.(*ssa.BinOp)
-				if !ok || bo.Op != token.MUL || !isNamed(bo.Type(), p.PkgPath, "Orientation") {
+		for _, r := range returnsOf(h) {
+			k, isK := r.Results[1].(*ssa.Const)
+			if !isK || k.Value == nil || k.Value.String() != "true" {
+				if !isK {
+					return false // the flag is computed: not summarised
+				}
+				continue
+			}
+			n++
+			v := r.Results[0]
+			for d := 0; d < 3; d++ {
+				switch x := v.(type) {
+				case *ssa.MakeInterface:
+					v = x.X
+					continue
+				case *ssa.ChangeInterface:
+					v = x.X
 					continue
 				}
-				for _, m := range []ssa.Value{bo.X, bo.Y} {
-					recv := orientCallOn(m)
-					_, isPhi := m.(*ssa.Phi)
-					if recv == nil && (isPhi || isNotOriented(m)) {
-						continue // the accumulator
-					}
-					if _, isK := m.(*ssa.Const); isK {
+				break
+			}
+			if !checkedAt(r.Block(), v, nil) {
+				return false
+			}
+		}
+		return n > 0
+	}
+	viaPredicate := func(blk *ssa.BasicBlock, recv ssa.Value) bool {
+		ex, ok := recv.(*ssa.Extract)
+		if !ok || ex.Index != 0 {
+			return false
+		}
+		call, ok := ex.Tuple.(*ssa.Call)
+		if !ok || !okMeansOriented(call.Call.StaticCallee()) {
+			return false
+		}
+		for d := blk; d != nil; d = d.Idom() {
+			ifi, ok := d.Instrs[len(d.Instrs)-1].(*ssa.If)
+			if !ok || d == blk {
+				continue
+			}
+			if fx, ok := ifi.Cond.(*ssa.Extract); ok && fx.Tuple == ex.Tuple && fx.Index == 1 && forcedEdge(d, blk) == 0 {
+				return true
+			}
+		}
+		return false
+	}
+	for _, name := range names {
+		root := c.fn("feat", name)
+		n := 0
+		for _, fn := range privateReach(root) {
+			for _, b := range fn.Blocks {
+				for _, ins := range b.Instrs {
+					bo, ok := ins.(*ssa.BinOp)
+					if !ok || bo.Op != token.MUL || !isNamed(bo.Type(), p.PkgPath, "Orientation") {
 						continue
 					}
-					n++
-					key := fmt.Sprintf("feat.%s/multiplicand#%d", name, n)
-					good := false
-					if recv == nil {
-						good = checkedAt(b, nil, m)
-					} else if checkedAt(b, recv, nil) {
-						good = true
-					} else if phi, ok := recv.(*ssa.Phi); ok {
-						good = true
-						for i, e := range phi.Edges {
-							pred := phi.Block().Preds[i]
-							if !checkedAt(pred, e, nil) && !reachableOnlyChecked(pred, e, checkedAt) {
-								good = false
+					for _, m := range []ssa.Value{bo.X, bo.Y} {
+						recv := orientCallOn(m)
+						_, isPhi := m.(*ssa.Phi)
+						if recv == nil && (isPhi || isNotOriented(m)) {
+							continue // the accumulator
+						}
+						if _, isK := m.(*ssa.Const); isK {
+							continue
+						}
+						n++
+						key := fmt.Sprintf("feat.%s/multiplicand#%d", name, n)
+						good := false
+						if recv == nil {
+							good = checkedAt(b, nil, m)
+						} else if checkedAt(b, recv, nil) || viaPredicate(b, recv) {
+							good = true
+						} else if prm, ok := recv.(*ssa.Parameter); ok && prm.Parent() != root {
+							// a helper's parameter: what the caller passes must have been checked at the call
+							if a := callerArg(prm, root); a != ssa.Value(prm) {
+								for _, g := range privateReach(root) {
+									for _, gb := range g.Blocks {
+										for _, gi := range gb.Instrs {
+											if ci, ok := gi.(ssa.CallInstruction); ok && ci.Common().StaticCallee() == fn {
+												good = checkedAt(gb, a, nil) || viaPredicate(gb, a)
+											}
+										}
+									}
+								}
+							}
+						} else if phi, ok := recv.(*ssa.Phi); ok {
+							good = true
+							for i, e := range phi.Edges {
+								pred := phi.Block().Preds[i]
+								if ep, isP := e.(*ssa.Parameter); isP && ep.Parent() != root {
+									a := callerArg(ep, root)
+									okArg := false
+									for _, g := range privateReach(root) {
+										for _, gb := range g.Blocks {
+											for _, gi := range gb.Instrs {
+												if ci, ok := gi.(ssa.CallInstruction); ok && ci.Common().StaticCallee() == fn {
+													okArg = checkedAt(gb, a, nil) || viaPredicate(gb, a)
+												}
+											}
+										}
+									}
+									if okArg {
+										continue
+									}
+								}
+								if !checkedAt(pred, e, nil) && !viaPredicate(pred, e) && !reachableOnlyChecked(pred, e, checkedAt) && !viaPredicate(phi.Block(), e) {
+									good = false
+								}
 							}
 						}
-					}
-					if good {
-						c.ok(rule, key, bo.Pos(), "the orientation multiplied in was compared with NotOriented on every path")
-					} else {
-						c.bad(rule, key, bo.Pos(), "an orientation is multiplied into the composed orientation without having been compared with NotOriented on every path: a location that implements Orienter but is not oriented zeroes the product, and the walk climbs past the documented reference feature")
+						if good {
+							c.ok(rule, key, bo.Pos(), "the orientation multiplied in was compared with NotOriented on every path")
+						} else {
+							c.bad(rule, key, bo.Pos(), "an orientation is multiplied into the composed orientation without having been compared with NotOriented on every path: a location that implements Orienter but is not oriented zeroes the product, and the walk climbs past the documented reference feature")
+						}
 					}
 				}
 			}
 		}
 		if n == 0 {
-			c.und(rule, "feat."+name+"/multiplicand", fn.Pos(), "no orientation multiplication found")
+			c.und(rule, "feat."+name+"/multiplicand", root.Pos(), "no orientation multiplication found")
 		}
 	}
 }
